@@ -186,3 +186,18 @@ def lit_str(s):
 
 def lit_bytes(b):
     return "B[" + ",".join(str(x) for x in b) + "]" if b else "(B[1] drop 1)"
+
+
+def resort(v):
+    """Re-sort dict entries (recursively) by a Python-side key so that got/expected compare as sets."""
+    import json as _json
+    if isinstance(v, list):
+        if v and v[0] == "d":
+            ents = [[resort(k), resort(x)] for k, x in v[1]]
+            ents.sort(key=lambda e: _json.dumps(e[0], sort_keys=True))
+            out = ["d", ents]
+            if len(v) > 2:
+                out.append(resort(v[2]))
+            return out
+        return [resort(x) for x in v]
+    return v
